@@ -1,4 +1,126 @@
+(* C18 - the tool connects to, and reports on, exactly the target that was named.
+   Statements only; proofs are `exact <lemma>` from proofs/TargetProofs.v.  Model: model/Target.v
+   (utils.parse_host_and_port / is_ipv6_address, process_commandline, the -T loop, AuditConf port setter,
+   SSH_Socket._resolve / connect, DHEat._resolve_hostname, the labels of output() / evaluate_policy()). *)
 From VModel Require Import Target.
 From VProofs Require Import TargetProofs.
-Theorem c18_stub : True.
-Proof. exact stub_true. Qed.
+Open Scope string_scope. Open Scope list_scope. Open Scope Z_scope.
+
+(* str(port) is read back by int() for every port *)
+Theorem c18_int_of_dec : forall n, 0 <= n -> int_of_string (dec n) = Ok n.
+Proof. exact int_of_string_dec. Qed.
+
+(* every documented spelling (hostname/IPv4, host:port, bare IPv6, [IPv6], [IPv6]:port), any host text, any port,
+   any default: the parser returns exactly the host and port the spelling names *)
+Theorem c18_forms_parse : forall f d, form_ok f = true -> parse_host_and_port (spell f) d = Ok (endpoint f d).
+Proof. exact forms_parse. Qed.
+
+(* command line without -p: accepted with exactly that endpoint (default 22) *)
+Theorem c18_cli_forms_no_port_option : forall f, form_ok f = true -> port_ok (form_port f 22) = true ->
+  cli_single (spell f) None = COk (form_host f) (form_port f 22).
+Proof. exact cli_forms_no_port_option. Qed.
+
+(* command line with -p P: holds for the spellings without own port and without brackets ... *)
+Theorem c18_cli_port_option_partial : forall f P, form_ok f = true -> form_has_port_or_brackets f = false -> port_ok P = true ->
+  cli_single (spell f) (Some P) = COk (form_host f) P.
+Proof. exact cli_port_option_partial. Qed.
+(* ... recorded finding: with -p the positional host:port / [IPv6] / [IPv6]:port is not parsed at all *)
+Theorem c18_cli_port_option_refuted : exists f P, form_ok f = true /\ port_ok P = true /\ port_ok (form_port f P) = true
+  /\ cli_single (spell f) (Some P) <> COk (form_host f) (form_port f P).
+Proof. exact cli_port_option_refuted. Qed.
+Theorem c18_cli_port_option_bracket_refuted : exists f P, form_ok f = true /\ port_ok P = true
+  /\ cli_single (spell f) (Some P) <> COk (form_host f) (form_port f P).
+Proof. exact cli_port_option_bracket_refuted. Qed.
+
+(* targets file: any number of blank lines and padded lines (spaces, tabs, ...), each line a documented spelling:
+   the targets are exactly the named endpoints, in order, with the given default port *)
+Theorem c18_file_forms : forall items d, forallb item_ok items = true ->
+  file_targets (render items) d = Ok (map (fun f => endpoint f d) (forms_of items)).
+Proof. exact file_forms. Qed.
+(* recorded finding: a whitespace-only line becomes a target named '' *)
+Theorem c18_file_whitespace_line_refuted : exists pad, pad <> "" /\ forall_s pad_char pad = true
+  /\ file_targets (pad ++ String c_nl "")%string 22 = Ok [("", 22)].
+Proof. exact file_whitespace_line_refuted. Qed.
+(* recorded finding: a file without any target makes the tool audit the host '' *)
+Theorem c18_file_no_target_refuted : exists content r, file_lines content = [] /\ run_file content None [] r = RDone [audit_refused [] r "" 22].
+Proof. exact run_file_no_target_refuted. Qed.
+
+(* one audit resolves exactly (host, port) with the family of a single -4/-6, dials at most one address, and that
+   address is a stream answer of the resolver for that host, of the requested family, with that port *)
+Theorem c18_audit_dials_named : forall pref r h p,
+  o_gai (audit_refused pref r h p) = [(h, p, gai_family pref)]
+  /\ (List.length (o_conn (audit_refused pref r h p)) <= 1)%nat
+  /\ forall c, In c (o_conn (audit_refused pref r h p)) ->
+       exists e, In e (table r h) /\ e_type e = SOCK_STREAM /\ (gai_family pref = 0 \/ e_fam e = gai_family pref)
+                 /\ c = (e_fam e, e_ip e, p).
+Proof. exact audit_dials_named. Qed.
+
+(* a whole single-target run of a documented spelling: exactly one audit, of the named endpoint *)
+Theorem c18_run_single_named : forall f flags r, form_ok f = true -> port_ok (form_port f 22) = true ->
+  run_single (spell f) None flags r = RDone [audit_refused (pref_of_flags flags) r (form_host f) (form_port f 22)].
+Proof. exact run_single_named. Qed.
+(* a whole -T run of documented spellings with valid ports: one audit per named endpoint, in order *)
+Theorem c18_run_file_forms : forall items flags r, forallb item_ok items = true -> forms_of items <> [] ->
+  forallb (fun f => port_ok (form_port f 22)) (forms_of items) = true ->
+  run_file (render items) None flags r
+  = RDone (map (fun f => audit_refused (pref_of_flags flags) r (form_host f) (form_port f 22)) (forms_of items)).
+Proof. exact run_file_forms. Qed.
+
+(* ports: nothing is ever resolved or dialled with a port outside 1..65535, for ANY argument / file / option *)
+Theorem c18_single_ports_valid : forall arg oport flags r o, In o (obs_of (run_single arg oport flags r)) -> ports_valid o.
+Proof. exact run_single_ports. Qed.
+Theorem c18_file_ports_valid : forall content oport flags r o, In o (obs_of (run_file content oport flags r)) -> ports_valid o.
+Proof. exact run_file_ports. Qed.
+(* a bad -p is a usage error, a bad port in the argument ends the run before anything is resolved *)
+Theorem c18_bad_port_option_rejected : forall arg P flags r, port_ok P = false -> run_single arg (Some P) flags r = RExit.
+Proof. exact run_single_bad_option. Qed.
+Theorem c18_bad_port_option_rejected_file : forall content P flags r, port_ok P = false -> run_file content (Some P) flags r = RExit.
+Proof. exact run_file_bad_option. Qed.
+Theorem c18_bad_port_named_rejected : forall f flags r, form_ok f = true -> port_ok (form_port f 22) = false ->
+  run_single (spell f) None flags r = RCrash [].
+Proof. exact run_single_bad_named. Qed.
+(* recorded finding: an out-of-range port in a targets file aborts the run AFTER the other targets were dialled *)
+Theorem c18_file_bad_port_refuted : exists content r o,
+  run_file content None [] r = RCrash [o] /\ o_conn o <> [] /\ file_targets content 22 = Ok [("a", 22); ("b", 70000)].
+Proof. exact run_file_bad_port_refuted. Qed.
+
+(* IP version options: with a single -4 / -6 every address tried has that family *)
+Theorem c18_family_filter : forall pref r h l e, gai_family pref <> 0 ->
+  gai r h (gai_family pref) = Some l -> In e (resolve_list pref l) -> e_fam e = gai_family pref.
+Proof. exact family_filter. Qed.
+(* with a two-family preference the answers are tried family by family, resolver order kept inside a family *)
+Theorem c18_family_order : forall l, dual l ->
+  order_pref [4; 6] l = filter (fam_is AF_INET) l ++ filter (fam_is AF_INET6) l
+  /\ order_pref [6; 4] l = filter (fam_is AF_INET6) l ++ filter (fam_is AF_INET) l.
+Proof. exact family_order. Qed.
+Theorem c18_first_of_preferred : forall l e t, dual l -> resolve_list [4; 6] l = e :: t ->
+  (exists x, In x l /\ e_fam x = AF_INET /\ e_type x = SOCK_STREAM) -> e_fam e = AF_INET.
+Proof. exact first_of_preferred. Qed.
+(* the options -4, -6, -46 give the preference they name ... *)
+Theorem c18_flag_order_partial : pref_of_flags [] = [] /\ pref_of_flags [4] = [4] /\ pref_of_flags [6] = [6] /\ pref_of_flags [4; 6] = [4; 6].
+Proof. exact flag_order_partial. Qed.
+(* ... recorded finding: -64 does not; IPv4 is dialled although IPv6 was given precedence and is offered *)
+Theorem c18_flag_order_refuted : exists flags r h p ip4 ip6,
+  flags = [6; 4] /\ table r h = [{| e_fam := AF_INET; e_type := SOCK_STREAM; e_ip := ip4 |}; {| e_fam := AF_INET6; e_type := SOCK_STREAM; e_ip := ip6 |}]
+  /\ o_conn (audit_refused (pref_of_flags flags) r h p) = [(AF_INET, ip4, p)].
+Proof. exact flag_order_refuted. Qed.
+(* the connection rate test picks the same address as the audit unless two families are enabled ... *)
+Theorem c18_rate_test_partial : forall pref l, List.length pref <> 2%nat -> rate_first l = hd_error (resolve_list pref l).
+Proof. exact rate_test_partial. Qed.
+(* ... recorded finding: with two families it ignores their order *)
+Theorem c18_rate_test_order_refuted : exists pref l, pref = [4; 6] /\ dual l /\ rate_first l <> hd_error (resolve_list pref l).
+Proof. exact rate_test_order_refuted. Qed.
+
+(* labels: the text label ("(gen) target:", policy "Host:") is a documented spelling of exactly (host, port) *)
+Theorem c18_text_label_name : forall h p, name_ok h = true -> port_ok p = true -> parse_host_and_port (text_label h p) 22 = Ok (h, p).
+Proof. exact text_label_name. Qed.
+Theorem c18_text_label_v6 : forall a p, is_ipv6 a = true -> forall_s host_char a = true -> port_ok p = true ->
+  parse_host_and_port (text_label a p) 22 = Ok (a, p).
+Proof. exact text_label_v6. Qed.
+(* the JSON "target" is one for names and IPv4 ... *)
+Theorem c18_json_label_name : forall h p d, name_ok h = true -> port_ok p = true -> parse_host_and_port (json_label h p) d = Ok (h, p).
+Proof. exact json_label_name. Qed.
+(* ... recorded finding: not for IPv6 hosts (no brackets) *)
+Theorem c18_json_label_v6_refuted : exists a p, is_ipv6 a = true /\ forall_s host_char a = true /\ port_ok p = true
+  /\ parse_host_and_port (json_label a p) 22 <> Ok (a, p).
+Proof. exact json_label_v6_refuted. Qed.
